@@ -15,11 +15,12 @@ LAWS = ["reorder=>0", "symmetric", "non-negative", "triangle", "diagonal points 
 REQUIRED = ["bn: " + l for l in LAWS] + ["ws: " + l for l in LAWS] + ["bottleneck<=wasserstein", "bn: ==oracle", "ws: ==oracle"]
 RULE = ("triples (X,Y,Z) of diagrams with 10..60 (quick) / 10..300 (thorough) points each (plus a few tiny ones): independent "
         "random, Y a jittered copy of X (near-zero distances), clustered, integer grids with massive ties, re-paired copies (same births and same deaths, different pairing); scales 1e-3..1e3; "
-        "one hash seed per worker. Every law is a separate monitor clause; the C01/C02 scipy oracles run on the same "
+        "one case in 97 has 300-450 generic points per diagram (symmetry, reordering, diagonal points and the oracle only); one hash seed per worker. Every law is a separate monitor clause; the C01/C02 scipy oracles run on the same "
         "values. non-trivial = all three diagrams have >=10 points and are pairwise different; distinct = triple digest")
 ASSUMPTIONS = ["tolerances: bottleneck 1e-9*scale (exact arithmetic up to the transformation's own rounding), Wasserstein "
                "1e-7*scale*(M+N+1) (sklearn sqrt-eps cross distances; W(X,X) is 0 only up to that)",
                "translations have magnitude <= 10*scale and their own rounding eps*(scale+|s|) is inside the tolerance"]
+REQUIRED_NOTES = ["large-cases"]
 TECHNIQUE = "runtime monitoring: metamorphic-relation monitor (one clause per law) over related calls, plus scipy oracles on the same values"
 
 
@@ -68,7 +69,38 @@ def gen_triple(rng, tier):
     return X, Y, Z, scale, style
 
 
+def large_case(ctx, k, rng):
+    """300-450 generic points per diagram (more than 2**16 distinct candidate distances): the laws that relate few calls"""
+    scale = float(rng.choice([1e-3, 1, 1, 1e3]))
+    X = gen.diagram(rng, int(rng.integers(300, 451)), "float", scale)
+    Y = gen.diagram(rng, int(rng.integers(300, 451)), str(rng.choice(["float", "cluster"])), scale)
+    ctx.begin(k, "large", {"X": X, "Y": Y})
+    ctx.note("large-cases")
+    sc = scale_of(X, Y)
+    for kind, fn in (("bn", bottleneck), ("ws", wasserstein)):
+        tol = 1e-9 * sc if kind == "bn" else 1e-7 * sc * (len(X) + len(Y) + 1)
+        try:
+            ctx.ran(4)
+            dxy, dyx = float(fn(X, Y)), float(fn(Y, X))
+            ctx.check(kind + ": symmetric", abs(dxy - dyx) <= tol, dxy=dxy, dyx=dyx)
+            dpp = float(fn(X, X[rng.permutation(len(X))]))
+            ctx.check(kind + ": reorder=>0", abs(dpp) <= (0 if kind == "bn" else tol), got=dpp, n=len(X))
+            nb = int(rng.integers(1, 60))
+            tb = rng.uniform(-sc, sc, nb)
+            Yd = np.vstack([Y, np.column_stack([tb, tb])])[rng.permutation(len(Y) + nb)]
+            dd = float(fn(X, Yd))
+            ctx.check(kind + ": diagonal points ignored", abs(dd - dxy) <= tol, got=dd, base=dxy, added=nb)
+            S, T = OM.finite_rows(X), OM.finite_rows(Y)
+            ref = OM.bottleneck_threshold(S, T) if kind == "bn" else OM.wasserstein_lsa(S, T)
+            ctx.check(kind + ": ==oracle", abs(dxy - ref) <= tol, got=dxy, ref=ref)
+        except Exception as e:
+            ctx.exception(kind + ": returns", e)
+    ctx.mark_nontrivial(X, Y)
+
+
 def run_case(ctx, k, rng):
+    if k % 97 == 13:
+        return large_case(ctx, k, rng)
     X, Y, Z, scale, style = gen_triple(rng, ctx.tier)
     ctx.begin(k, style, {"X": X, "Y": Y, "Z": Z})
     sc = scale_of(X, Y, Z)
